@@ -549,4 +549,25 @@ theorem connectEdges_endpoints {outs ins : List Nat} {es : List (Nat × Nat)}
       exact ⟨by simp, hi⟩
     · cases h
 
+/-! ### One scheduler, several graphs -/
+
+section Shared
+variable {κ V : Type}
+
+theorem lookupAll_congr {e e' : Env κ V} {ks : List κ} (h : ∀ k ∈ ks, e k = e' k) :
+    lookupAll e ks = lookupAll e' ks := by
+  induction ks with
+  | nil => rfl
+  | cons k ks ih =>
+    simp only [lookupAll]
+    rw [h k (by simp), ih (fun x hx => h x (by simp [hx]))]
+
+end Shared
+
+theorem Submission.key_inj (s : Submission) (a b : Key) (h : s.key a = s.key b) : a = b := by
+  cases a <;> cases b <;> simp [Submission.key] at h ⊢
+  · cases hr : s.rename <;> simp [hr] at h
+  · cases hr : s.rename <;> simp [hr] at h
+  · exact h
+
 end Pharmpy.C17
